@@ -356,6 +356,10 @@ def stream_vs_single(ctx: Ctx):
 def check(ctx: Ctx) -> None:
     prog = ctx.prog
     ctx.guard("R11.e", GEN, stream_vs_single, ctx)
+    # unrecognized packets of every kind (no matching child, contradictory criteria, an abstract container nothing inherits from)
+    # are reported in their position with their partial data, or skipped: the hand-written document of C01
+    from .c01 import end_to_end_third
+    ctx.guard("R11.e3", GEN, end_to_end_third, ctx, "R11.e3")
     ctx.guard("R11.7", "packets.py::CCSDSPacket", reparse_rule, ctx)
     cg = CallGraph(prog)
     cl = effect_rule(ctx, cg, [PARSE], "R11.1", "decoding")
@@ -424,7 +428,7 @@ SPEC = PropSpec(
     pid="C11",
     title="Packets are parsed independently; generators and definitions do not interfere",
     check=check,
-    floors={"R11.1": 25, "R11.2": 2, "R11.3": 2, "R11.4": 8, "R11.6": 2, "R11.7": 1, "R11.e": 1},
+    floors={"R11.e3": 20, "R11.1": 25, "R11.2": 2, "R11.3": 2, "R11.4": 8, "R11.6": 2, "R11.7": 1, "R11.e": 1},
     fallback={"R11.3": ("R11.4",)},
     explanation=("Effect analysis over the resolved call graph: every function reachable from parse_ccsds_packet "
                  "(R11.1) and from packet_generator / ccsds_generator (R11.2) is scanned for attribute stores, "
